@@ -59,10 +59,15 @@ func mix(a uint64, s string, b uint64) uint64 {
 func genCase(sc core.Scenario, job *Job, i int) (*core.Case, uint64) {
 	g := mix(job.Seed, job.Prop, uint64(i))
 	r := rand.New(rand.NewPCG(g, 1))
+	core.JobSeed = job.Seed
 	c := sc.Gen(r, job.Tier, i)
 	c.Prop = job.Prop
 	c.Seed = job.Seed
 	c.Run = i
+	if ts, ok := c.Params["tape_seed"]; ok {
+		// runs of one block share the decision stream (fault enumeration)
+		return c, mix(uint64(ts), "tape", 2)
+	}
 	return c, mix(g, "tape", 2)
 }
 
